@@ -91,3 +91,53 @@ Definition layout_fails (thr W H : Qc) (nf : nat) (ms : list (smod Qc)) (adj : l
   | Ok _ => false
   | _ => true
   end.
+
+(* ---- Module.recenter_rectangles driven directly: a history of operations on one hard module ---- *)
+(* an axis whose whole computation is exact in binary64 must agree exactly, else within k roundings *)
+Definition axis_cmp (exact : bool) (k : Z) (scale q f : Qc) : bool :=
+  if exact then Qceqb q f else qclose k scale q f.
+Definition rect_cmp_xy (ex ey : bool) (k : Z) (scale : Qc) (a b : Rect) : bool :=
+  axis_cmp ex k scale (cx a) (cx b) && axis_cmp ey k scale (cy a) (cy b) && Qceqb (rw a) (rw b) && Qceqb (rh a) (rh b) &&
+  Bool.eqb (fixed a) (fixed b) && Bool.eqb (hard a) (hard b) && String.eqb (region a) (region b) &&
+  loc_eqb (rloc a) (rloc b).
+Definition rc_ok (ex ey : bool) (k : Z) (scale : Qc) (ops : list rc_op) (st : rc_state)
+           (o : res (option vec * list Rect)) : bool :=
+  match rc_run ops st, o with
+  | Ok st', Ok (c, rs) =>
+      opt_eqb (pair_eqb Qceqb Qceqb) (rc_centre st') c && list_eqb (rect_cmp_xy ex ey k scale) (rc_rects st') rs
+  | EmptyMin, EmptyMin | ZeroDiv, ZeroDiv | AssertFail, AssertFail => true
+  | _, _ => false
+  end.
+
+(* ---- several spectral_layout calls on one Spectral object ---- *)
+(* a call: die, trial count, the recorded trials, the modules observed afterwards (None: the call raised,
+   and the history ends there) *)
+Definition step_rec : Type := (Qc * Qc * nat * list trial_rec * option (list (smod Qc)))%type.
+Fixpoint session_ok (thr tol : Qc) (s : sess Qc unit) (steps : list step_rec) : bool :=
+  match steps with
+  | [] => true
+  | (W, H, nf, trs, o) :: rest =>
+      match sess_step thr (rnd_of trs (W * half) (H * half)) (produce_of trs) (niter_of trs) W H nf s, o with
+      | Ok s', Some out =>
+          list_eqb (smod_close tol) (ss_mods s') out &&
+          starts_ok tol trs (W * half) (H * half) (List.length trs) 0 (ss_fx s)
+                    (fst (sess_centres nf s)) (snd (sess_centres nf s)) &&
+          session_ok thr tol s' rest
+      | Ok _, None => false
+      | _, Some _ => false
+      | _, None => true
+      end
+  end.
+(* the object is built from the observed netlist; the model then runs on ITS OWN state from call to call *)
+Definition session_from (thr tol : Qc) (ms : list (smod Qc)) (adj : list (list (nat * Qc))) (steps : list step_rec) : bool :=
+  match sess_init (fun m => s_other m) (mkSnet ms adj tt) with
+  | Ok s => session_ok thr tol s steps
+  | _ => match steps with (_, _, _, _, None) :: _ => true | _ => false end
+  end.
+
+(* spectral_layout_die raised before its first normalize call: the model must not return either *)
+Definition die_fails (thr W H : Qc) (radius : list Qc) (fx : list bool) (inix iniy : list Qc) (t : trial_rec) : bool :=
+  match layout_die thr (rnd_of [t] (W * half) (H * half)) (produce_of [t]) (niter_of [t]) 0 W H radius fx inix iniy with
+  | Ok _ => false
+  | _ => true
+  end.
